@@ -25,11 +25,18 @@ def vectors(kind):
     if kind == "calls":
         return [dict(BASE), dict(BASE, inline_functions=False), dict(BASE, inline_functions=False, use_push_pop_functions=True),
                 dict(BASE, inline_functions=False, tail_call_optimization=True), dict(BASE, use_push_pop_functions=True, tail_call_optimization=True),
-                dict(BASE, inline_functions=False, compact=True, remove_labels=True)]
+                dict(BASE, inline_functions=False, compact=True, remove_labels=True), dict(BASE, inline_functions=False, compact=True)]
     if kind == "cover16":
         return [H.options_from_bits(b) for b in COVER16] + SUITE
     if kind == "all256":
         return [H.options_from_bits(b) for b in range(256)]
+    if kind == "modules":
+        # push/pop with library functions is a recorded known finding (C13-pushpop-library-exit): not in the explored vectors;
+        # programs with equal function names in several modules are not explored under remove_labels (C05-prefix-names)
+        return [dict(BASE), dict(BASE, inline_functions=False), dict(BASE, inline_functions=False, compact=True),
+                dict(BASE, inline_functions=False, tail_call_optimization=True)]
+    if kind == "modules-rl":
+        return [dict(BASE), dict(BASE, remove_labels=True), dict(BASE, inline_functions=False), dict(BASE, inline_functions=False, compact=True, remove_labels=True)]
     if kind == "labels":
         return [dict(BASE), dict(BASE, remove_labels=True), dict(BASE, inline_functions=False), dict(BASE, inline_functions=False, remove_labels=True)]
     raise ValueError(kind)
@@ -39,7 +46,14 @@ def function_labels(sources):
     """labels the transpiler gives to user functions (dotted qualified names)"""
     out = set()
     srcs = sources if isinstance(sources, dict) else {"": sources}
+    alias = {}
+    for m in re.finditer(r"^from\s+library\s+import\s+(.+)$", srcs.get("", ""), re.M):
+        for part in m.group(1).split(","):
+            bits = part.split()
+            if len(bits) == 3 and bits[1] == "as":
+                alias[bits[0]] = bits[2]
     for mod, text in srcs.items():
+        mod = alias.get(mod, mod)
         for m in re.finditer(r"^def\s+([A-Za-z_][A-Za-z0-9_]*)\s*\(", text, re.M):
             name = (mod + "." if mod else "") + m.group(1)
             out.add(name.replace("_", "."))
@@ -108,6 +122,10 @@ def check_calls(m):
             fails.append(f"return at line {ev[1]} went to line {ev[2]}, the call being served expects line {ev[3]}")
         elif ev[0] == "ret-without-call":
             fails.append(f"'j ra' at line {ev[1]} executed with no call in progress (went to line {ev[2]})")
+    # the stack pointer at a top-level yield (no call in progress) is the same in every tick: calls leave nothing behind
+    top = [sp for sp, depth in m.sp_at_yield if depth == 0]
+    if len(set(top)) > 1:
+        fails.append(f"stack pointer at top-level yields drifts: {top[:4]} (a call left values on the stack or consumed too many)")
     return fails
 
 
@@ -135,6 +153,7 @@ def check_regions(sources, code, env):
         prev = m.pc
         toks = p.code[prev]
         m.steps += 1
+        jumped = False
         if not toks or p.is_label(prev):
             nxt = prev + 1
         else:
@@ -145,7 +164,8 @@ def check_regions(sources, code, env):
             if m.status is not None:
                 break
             nxt = prev + 1 if r is None else r
-        if nxt in region_of and nxt == region_of[nxt] and nxt == prev + 1:
+            jumped = r is not None
+        if nxt in region_of and nxt == region_of[nxt] and nxt == prev + 1 and not jumped:
             # sequential entry into a function label line
             if region_of.get(prev) is None:
                 info["main_end_reached"] = True  # known finding C07-main-falls-through
@@ -196,11 +216,13 @@ def full_task(task):
     main_src = sources if isinstance(sources, str) else sources[""]
     env = H.make_env(seed, H.consts_of(sources))
     ref_trace, ref_status = H.run_dialect(sources, env)
-    if ref_trace is None:
+    semantic = ref_trace is not None
+    if not semantic:
         rec["status"] = "outside"
         rec["detail"] = ref_status
-        return rec
-    rec["effects"] = len(ref_trace)
+        if not ({"C09", "C17", "C05"} & set(want)):
+            return rec
+    rec["effects"] = len(ref_trace) if semantic else 0
     outs = []
     for opts in vectors(vkind):
         res = H.compile_program(sources, opts)
@@ -219,7 +241,8 @@ def full_task(task):
             d["code"] = res["code"]
         d.update(extra)
         rec["fails"].setdefault(prop, []).append(d)
-        rec["status"] = "fail"
+        if rec["status"] != "outside":
+            rec["status"] = "fail"
 
     if 0 < n_ok < len(outs) and "C02" in want:
         errs = {r["error"].get("description", "")[:80] for _, r in outs if "error" in r}
@@ -239,6 +262,8 @@ def full_task(task):
         if "C17" in want:
             for r in check_stats(res):
                 fail("C17", r, opts, res)
+        if not semantic:
+            continue
         m = H.run_machine(code, env)
         d = H.compare_traces(m.trace, m.status, ref_trace, ref_status)
         if d:
@@ -253,10 +278,13 @@ def full_task(task):
                 fail("C06", r, opts, res)
             if d and any(f"{n}(" in main_src for n in ("def ",)) and m.status.startswith("error") and "stack address" in m.status:
                 fail("C06", "stack pointer ran out of range: " + m.status, opts, res)
-        if "C07" in want and not opts.get("remove_labels"):
+        if ("C07" in want or "C07a" in want) and not opts.get("remove_labels"):
             fs, info = check_regions(sources, code, env)
             for r in fs:
                 fail("C07", r, opts, res)
+            if info and info.get("main_end_reached"):
+                rec.setdefault("main_end", []).append({"options": opts, "effects_at_main_end": info.get("effects_at_main_end")})
+                rec["fails"].setdefault("C07a", []).append({"what": "main code reaches its end and falls through into the first function region", "options": opts, "sources": sources, "code": code})
     if "C05" in want:
         by = {}
         for opts, res in outs:
@@ -269,4 +297,57 @@ def full_task(task):
                 un = pair.get(True)
                 for f in check_labels(sources, r["code"], un[1]["code"] if un else None):
                     fail("C05", f, un[0] if un and "label-free" in f else o, r, unlabelled=un[1]["code"] if un else None)
+    return rec
+
+
+def unused_library_task(task):
+    """C13 clause: a library function that is never called, and a library's `if __name__ == "__main__":` block,
+    contribute no instructions: the output equals the output for the library without them."""
+    from bounded import genmod
+
+    seed, opts = task
+    sources, feats = genmod.generate(seed, with_unused=True)
+    rec = {"seed": seed, "features": feats, "status": "ok", "fails": {}}
+    stripped = {}
+    changed = False
+    for k, text in sources.items():
+        if k == "":
+            stripped[k] = text
+            continue
+        t2 = text.replace("def never_called(p0):\n    db.Lock = p0 + 1\n    return p0\n\n", "")
+        t2 = t2.replace('if __name__ == "__main__":\n    db.Open = 77\n    d1.Open = total\n', "")
+        changed = changed or t2 != text
+        stripped[k] = t2
+    a = H.compile_program(sources, opts)
+    b = H.compile_program(stripped, opts)
+    if "code" not in a or "code" not in b:
+        rec["status"] = "compile-error" if ("code" not in a and "code" not in b) else "fail"
+        if rec["status"] == "fail":
+            rec["fails"]["C13"] = [{"what": "compiles only with / only without the never-called library code: " + str((a.get("error") or b.get("error"))["description"])[:200],
+                                    "options": opts, "sources": sources}]
+        return rec
+    rec["n_compiled"] = 2
+    rec["effects"] = 1
+    def canon(code):
+        """instruction sequence with labels renamed by order of first appearance (label numbering is layout, not an instruction)"""
+        p = M.Program(code)
+        names = {}
+        out = []
+        for t in p.code:
+            row = []
+            for i, tok in enumerate(t):
+                base = tok[:-1] if (len(t) == 1 and tok.endswith(":")) else tok
+                if base in p.labels:
+                    names.setdefault(base, f"L{len(names)}")
+                    tok = names[base] + (":" if tok.endswith(":") and len(t) == 1 else "")
+                row.append(tok)
+            out.append(" ".join(row))
+        return out
+
+    if canon(a["code"]) != canon(b["code"]):
+        la, lb = canon(a["code"]), canon(b["code"])
+        k = next((i for i in range(min(len(la), len(lb))) if la[i] != lb[i]), min(len(la), len(lb)))
+        rec["status"] = "fail"
+        rec["fails"]["C13"] = [{"what": f"never-called library code changes the output (first difference at line {k}: {la[k] if k < len(la) else None!r} vs {lb[k] if k < len(lb) else None!r}; {len(la)} vs {len(lb)} lines)",
+                                "options": opts, "sources": sources, "code": a["code"]}]
     return rec
